@@ -60,7 +60,7 @@ TEXT = {
     "C16": {
         "text": "PARTIAL (glue compared, not proved). Theorems over the child-result schema, argv construction and the CLI decision function: accepted iff exit 0 and a finite objFuncVal; null/absent = rejection; anything else fails; invalid options/inputs are "
                 "rejected before launch; an existing output directory without --force is refused untouched; success = exit 0 + one stdout line (+ files); failing child = non-zero exit, no stdout, diagnostic files. The real binary is compared with "
-                "these decisions on generated option combinations, hostile keys, user argument lists with spaces/quotes/non-UTF-8 bytes/leading dashes, and every child result encoding."
+                "these decisions on generated option combinations, hostile keys, user argument lists with spaces/quotes/non-UTF-8 bytes/leading dashes, and every child result encoding. C16_schema / C16_schema_value / C16_schema_array: the result schema over the JSON tree (a result or rejection is exactly a JSON object that is empty or has the one member objFuncVal holding a number or null; no array is a result - defect D16), over the extracted source fact that only objects are parsed; K-proc family outputs is judged through this model."
                 " C16_criteria_conflict / C16_criteria_budget (termination::compile: conflicts are exactly repeated kinds; the budget in force is the one given), checked against sync_launch::launch on generated criteria lists (K-run).",
         "design_ref": "7 (C16), 4 (L8, L9)", "note": PROC_NOTE,
         "technique": "Lean 4 decision-table theorems + process-level differential runs of the real binary",
